@@ -52,29 +52,25 @@ def r1(R1, cfg, F):
         ok = b.dominates(srt[0].bb, ddp[0].bb) and b.dominates(ddp[0].bb, ag[0][0]) and srt[0].bb != ddp[0].bb
         why = 'sort must dominate dedup, and dedup the construction of Directory (dedup only removes adjacent duplicates)'
     if ok:
-        # all three act on the vector that came out of select_ids(..)?
-        def vec_of(op):
-            s = b.downcast_source(op)
-            if s:
-                return s
-            r = b.call_roots(op)
-            for x in r:
-                if x.callee and x.callee.name in ('deref_mut', 'deref'):
-                    return b.downcast_source(x.args[0])
-            return None
+        # all three act on the vector that came out of select_ids(..) -- its Ok payload, however it was unwrapped
+        me = ['call@bb%d' % sel[0].bb, 'as:Ok', '0']
+
+        def vec_of(op, depth=0):
+            ap = common.deep_path(b, op)
+            ap = [e for e in (ap or []) if e not in ('&', '*')]
+            if ap[:3] == me:
+                return True
+            if ap and ap[0].startswith('call@bb') and depth < 4:
+                site = [c for c in b.calls() if 'call@bb%d' % c.bb == ap[0]]
+                if site and site[0].callee and site[0].callee.name in ('deref_mut', 'deref', 'as_mut_slice', 'as_mut', 'borrow_mut'):
+                    return vec_of(site[0].args[0], depth + 1)
+            return False
         ids_op = ag[0][1]['rv']['ops'][ag[0][1]['rv']['fields'].index('ids')]
-        srcs = [vec_of(srt[0].args[0]), vec_of(ddp[0].args[0]), vec_of(ids_op)]
-        ok = all(s and s[1] == 'Continue' for s in srcs) and len({s[0] for s in srcs}) == 1
-        if ok:
-            r = b.call_roots(srcs[0][0], passthrough=common.PT_TRY)
-            ok = [x.bb for x in r] == [sel[0].bb]
+        ok = vec_of(srt[0].args[0]) and vec_of(ddp[0].args[0]) and vec_of(ids_op)
         why = 'sort / dedup / stored ids are not all the vector returned by select_ids(..)?'
     if ok:
-        # Err propagates: the Break edge reaches return without constructing a Directory
-        br = [c for c in b.calls() if c.callee and c.callee.defp == 'std::ops::Try::branch']
-        sw = b.primary_switch(br[0].dest['l']) if len(br) == 1 else None
-        brk = b.variant_edge(sw, 1) if sw is not None else None
-        ok = brk is not None and ag[0][0] not in b.reachable([brk]) and bool(b.reachable([brk]) & set(b.return_blocks()))
+        # a failing select_ids builds no Directory
+        ok = common.guarded_by_variant(b, ag[0][0], [['call@bb%d' % sel[0].bb]], 0)
         why = 'a failing select_ids (missing directory) must be returned as an error'
     R1.check(ok, cfg, b.path, 'sorted-dedup-of-select_ids', 'Directory::load: %s' % why, b.loc())
 
@@ -174,12 +170,9 @@ def r3(R3, cfg, F):
         ok = 'dirs::Directory<T>' in ld[0].callee.args and b.origins(ld[0].args[0]) == {('arg', 1)} and b.origins(ld[0].args[1], passthrough=common.pt_deref) == {('arg', 2)}
         why = 'the own directory loaded is not Directory<T> of the same id'
     if ok:
-        # both `?`: neither the construction nor sub_directories is reachable through a Break edge
+        # both results are tested for Ok before the value is built (`?` or an explicit match: same normal form)
         for call, nm in ((ld[0], 'Directory<T>'), (sd[0], 'sub_directories')):
-            br = [c for c in b.calls() if c.callee and c.callee.defp == 'std::ops::Try::branch' and b.access_path(c.args[0]) == ['call@bb%d' % call.bb]]
-            sw = b.primary_switch(br[0].dest['l']) if len(br) == 1 else None
-            cont = b.variant_edge(sw, 0) if sw is not None else None
-            if cont is None or ag[0][0] in b.reachable([0], removed_edges=[(sw, cont)]):
+            if not common.guarded_by_variant(b, ag[0][0], [['call@bb%d' % call.bb]], 0):
                 ok = False
                 why = 'the error of %s is not propagated' % nm
     if ok:
